@@ -209,8 +209,8 @@ def run_case(case):
                     C["rule_effect_comparisons"] += 1
                     da = {s: a[i0[s]] for s in s0}; db = {s: b[i1[s]] for s in s0}
                     pa = dict(M.get_parameter_dictionary()); pb = dict(R.get_parameter_dictionary())
-                    if any(abs(da[s] - db[s]) > 1e-12 * max(abs(da[s]), abs(db[s]), 1e-300) for s in s0) or \
-                            any(abs(float(pa[k]) - float(pb[k])) > 1e-12 * max(abs(float(pa[k])), 1e-300) for k in pa if k in pb):
+                    nd_ = lambda u_, v_: not (u_ == v_ or (u_ != u_ and v_ != v_) or abs(u_ - v_) <= 1e-12 * max(abs(u_), abs(v_), 1e-300))      # NaN on one side only is a difference
+                    if any(nd_(da[s], db[s]) for s in s0) or any(nd_(float(pa[k]), float(pb[k])) for k in pa if k in pb):
                         bad("rule-effect", "rules applied at t=%g step=%s to %s give %r -> %r" % (tt, step, st, da, db))
                         break
             M.set_params(q0)
